@@ -238,6 +238,20 @@ func (t *T) IsAlive() bool {
 	return !t.closed
 }
 
+// LoseNow injects a connection loss at this instant: kind "eof" or "readerr". Bytes the peer
+// emitted but the client has not read yet are lost.
+func (t *T) LoseNow(kind string) {
+	t.K.Yield("tr.lose")
+	t.mu.Lock()
+	if kind == "eof" {
+		t.F.EOFAt = t.delivered
+	} else {
+		t.F.ErrAt = t.delivered
+	}
+	t.wakeLocked()
+	t.mu.Unlock()
+}
+
 // Resume lets withheld bytes (stall fault) flow again: the device catches up.
 func (t *T) Resume() {
 	t.K.Yield("tr.resume")
@@ -544,4 +558,12 @@ func (t *T) LastByteTime() time.Duration {
 	defer t.mu.Unlock()
 
 	return t.LastByteAt
+}
+
+// NWrites is the number of Write calls so far.
+func (t *T) NWrites() int {
+	t.mu.Lock()
+	defer t.mu.Unlock()
+
+	return len(t.Writes)
 }
